@@ -84,6 +84,21 @@ pub fn exec(op: &str, args: &[&str], out: &mut Out) -> Option<()> {
                     Err(_) => chk(false, "PointerBuf::parse of a valid text"),
                 }
             }
+            // ToOwned::clone_into / Cow::clone_from reuse a target that held something else (longer, shorter, empty) before
+            for old in ["", "/x", "/a/very/much/longer/pointer/than/most/inputs/are/~0~1/0123456789/abcdefghijklmnopqrstuvwxyz"] {
+                let mut target = PointerBuf::parse(old).unwrap();
+                p.clone_into(&mut target);
+                chk(target.as_str() == s, "ToOwned::clone_into");
+                let mut c: Cow<'static, Pointer> = Cow::Owned(PointerBuf::parse(old).unwrap());
+                c.clone_from(&Cow::Owned(buf.clone()));
+                chk(c.as_str() == s, "Cow::clone_from");
+                let mut b2 = PointerBuf::parse(old).unwrap();
+                b2.clone_from(&buf);
+                chk(b2.as_str() == s, "PointerBuf::clone_from");
+            }
+            // a serializer that is not human readable (binary formats) must be handed the same single string
+            chk(rec::emitted(p, false) == Some(s.clone()) && rec::emitted(p, true) == Some(s.clone()), "Serialize for Pointer (recording serializer, both readabilities)");
+            chk(rec::emitted(&buf, false) == Some(s.clone()) && rec::emitted(&buf, true) == Some(s.clone()), "Serialize for PointerBuf (recording serializer, both readabilities)");
             // json value, Display
             chk(p.to_json_value() == serde_json::Value::String(s.clone()), "to_json_value");
             chk(serde_json::Value::from(p) == serde_json::Value::String(s.clone()), "From<&Pointer> for Value");
@@ -163,5 +178,73 @@ pub fn gen(tier: &str, rng: &mut Rng, emit: &mut dyn FnMut(String)) {
     }
     for z in zs {
         emit(format!("tint {z}"));
+    }
+}
+
+
+/// a minimal serde Serializer that records whether exactly one string was emitted (anything else -> None)
+mod rec {
+    use serde::ser::{self, Impossible, Serialize};
+    use std::fmt;
+
+    #[derive(Debug)]
+    pub struct E;
+    impl fmt::Display for E {
+        fn fmt(&self, f: &mut fmt::Formatter<'_>) -> fmt::Result {
+            f.write_str("not a single string")
+        }
+    }
+    impl std::error::Error for E {}
+    impl ser::Error for E {
+        fn custom<T: fmt::Display>(_: T) -> Self {
+            E
+        }
+    }
+
+    pub struct S {
+        human: bool,
+    }
+
+    pub fn emitted<T: Serialize + ?Sized>(v: &T, human: bool) -> Option<String> {
+        v.serialize(S { human }).ok()
+    }
+
+    macro_rules! refuse {
+        ($($f:ident : $t:ty),*) => {$( fn $f(self, _v: $t) -> Result<String, E> { Err(E) } )*};
+    }
+
+    impl ser::Serializer for S {
+        type Ok = String;
+        type Error = E;
+        type SerializeSeq = Impossible<String, E>;
+        type SerializeTuple = Impossible<String, E>;
+        type SerializeTupleStruct = Impossible<String, E>;
+        type SerializeTupleVariant = Impossible<String, E>;
+        type SerializeMap = Impossible<String, E>;
+        type SerializeStruct = Impossible<String, E>;
+        type SerializeStructVariant = Impossible<String, E>;
+        fn is_human_readable(&self) -> bool {
+            self.human
+        }
+        fn serialize_str(self, v: &str) -> Result<String, E> {
+            Ok(v.to_string())
+        }
+        refuse!(serialize_bool: bool, serialize_i8: i8, serialize_i16: i16, serialize_i32: i32, serialize_i64: i64, serialize_u8: u8,
+                serialize_u16: u16, serialize_u32: u32, serialize_u64: u64, serialize_f32: f32, serialize_f64: f64, serialize_char: char,
+                serialize_bytes: &[u8]);
+        fn serialize_none(self) -> Result<String, E> { Err(E) }
+        fn serialize_some<T: ?Sized + Serialize>(self, _: &T) -> Result<String, E> { Err(E) }
+        fn serialize_unit(self) -> Result<String, E> { Err(E) }
+        fn serialize_unit_struct(self, _: &'static str) -> Result<String, E> { Err(E) }
+        fn serialize_unit_variant(self, _: &'static str, _: u32, _: &'static str) -> Result<String, E> { Err(E) }
+        fn serialize_newtype_struct<T: ?Sized + Serialize>(self, _: &'static str, _: &T) -> Result<String, E> { Err(E) }
+        fn serialize_newtype_variant<T: ?Sized + Serialize>(self, _: &'static str, _: u32, _: &'static str, _: &T) -> Result<String, E> { Err(E) }
+        fn serialize_seq(self, _: Option<usize>) -> Result<Self::SerializeSeq, E> { Err(E) }
+        fn serialize_tuple(self, _: usize) -> Result<Self::SerializeTuple, E> { Err(E) }
+        fn serialize_tuple_struct(self, _: &'static str, _: usize) -> Result<Self::SerializeTupleStruct, E> { Err(E) }
+        fn serialize_tuple_variant(self, _: &'static str, _: u32, _: &'static str, _: usize) -> Result<Self::SerializeTupleVariant, E> { Err(E) }
+        fn serialize_map(self, _: Option<usize>) -> Result<Self::SerializeMap, E> { Err(E) }
+        fn serialize_struct(self, _: &'static str, _: usize) -> Result<Self::SerializeStruct, E> { Err(E) }
+        fn serialize_struct_variant(self, _: &'static str, _: u32, _: &'static str, _: usize) -> Result<Self::SerializeStructVariant, E> { Err(E) }
     }
 }
